@@ -25,7 +25,9 @@ ASSUMPTIONS = ["header arguments fed here contain no CR/LF/NUL (that is C13's su
 
 STATUSES = [200, 204, 304, 404, 299, 599, 999]
 HEADER_SETS = [None, {"X-Custom": "v"}, {"x-latin": "é", "Cache-Control": "no-store"}, {"Content-Type": "application/x-own", "Content-Length": "99"}]
-COOKIE_SETS = [[], [("a", "1", {})], [("n", "é;x", {"max_age": 10, "httponly": True}), ("d", "", {"expires": 0, "samesite": "none"})]]
+COOKIE_SETS = [[], [("a", "1", {})], [("n", "é;x", {"max_age": 10, "httponly": True}), ("d", "", {"expires": 0, "samesite": "none"})],
+               [("abc\n", "def\n", {}), ("k", "a\r\nset-cookie: x=1", {}), ("z\0", "\n", {})]]
+REDIRECTS = ["/to/é?q=1", "/caf%C3%A9/中文", "/a%20b\tc", "https://h.example/p?x=%41&y=ü#f", "/%", "/x\r\nlocation: /evil", "", "//host/p"]
 NAMES = [None, "plain.txt", "é.txt", "中.txt", 'q"uote.bin']
 
 
@@ -43,8 +45,9 @@ def small_recipes():
         "empty": lambda m, st, h: m.PlainTextResponse("", st, h),
         "html": lambda m, st, h: m.HTMLResponse("<b>x</b>", st, h, charset="latin-1"),
         "json": lambda m, st, h: m.JSONResponse({"k": [1, None, "中"]}, st, h),
-        "redirect": lambda m, st, h: m.RedirectResponse("/to/é?q=1", 307 if st == 200 else st, h),
     }
+    for ri, target in enumerate(REDIRECTS):
+        contents[f"redirect{ri}"] = (lambda m, st, h, target=target: m.RedirectResponse(target, 307 if st == 200 else st, h))
     for (cname, build), st, (hi, h), (ci, cookies) in itertools.product(contents.items(), STATUSES, enumerate(HEADER_SETS), enumerate(COOKIE_SETS)):
         def make(m, build=build, st=st, h=h, cookies=cookies):
             r = build(m, st, dict(h) if h else None)
